@@ -18,7 +18,7 @@
               Simple-Request form for GET.  (Leading empty lines are removed before a line is looked at: SkipEmptyLines.) *)
 EXTENDS HttpChars
 MaxMethod == 32
-MaxUri == 65535
+MaxUri == 65536   \* String::RawSizeMaxXXX(), "64 KiB"
 NoMatch == [ok |-> FALSE]
 Fields(m, t, ma, mi) == [ok |-> TRUE, method |-> m, target |-> t, major |-> ma, minor |-> mi]
 
